@@ -353,7 +353,11 @@ func (c *Context) Quo(d, x, y *Decimal) (Condition, error) {
 			rem.Mul(&rem, bigTwo)
 			half := rem.Cmp(&divisor)
 			if c.Rounding.ShouldAddOne(&d.Coeff, d.Negative, half) {
-				d.Coeff.Add(&d.Coeff, bigOne)
+				// roundAddOne renormalizes a carry into a new digit
+				// (99..9 + 1) so that the coefficient keeps Precision digits.
+				var carry int64
+				roundAddOne(&d.Coeff, &carry)
+				adjExp10 -= carry
 				// The coefficient changed, so recompute num digits in
 				// setExponent.
 				nd = unknownNumDigits
